@@ -264,7 +264,7 @@ pub fn run(tier: Tier, shard: Shard, rep: &mut Report) {
     rep.rule = "the C02 scenario table (operation x pre-state x front-end); for EVERY intercepted call of the fault-free trace and \
         every failure plausible for that kind of call (errno table in DESIGN.md §3.3; short writes; close reporting an error after \
         releasing the descriptor; thorough adds effect-then-fail for rename/link/unlink and pairs of faults for short operations), \
-        the failure is injected once and the operation continues. Oracle: no panic except the documented failed-flush one; Err, or Ok \
+        the failure is injected once and the operation continues; the library-finalised writes again with handles built with auto_sync(false). Oracle: no panic except the documented failed-flush one; Err, or Ok \
         with the effect verified on disk and, for writes, every inode that became visible flushed beforehand; tree valid (C02's predicate); no new temp file survives except the one whose own unlink \
         was failed; no descriptor left open; re-issuing the operation succeeds with the fault-free effect. Every case is distinct."
         .into();
@@ -274,6 +274,30 @@ pub fn run(tier: Tier, shard: Shard, rep: &mut Report) {
     ];
     let scns = scn::all_scenarios();
     let mut no = 0u64;
+    // handles built with auto_sync(false), for the operations whose temporary file the library itself finalises:
+    // durability is off, reporting failures is not
+    scn::AUTO_SYNC.with(|a| a.set(false));
+    for scn in scns.iter().filter(|s| !s.debris() && matches!(s.op.as_str(), "ensure" | "ensure_chunks" | "replace" | "promote" | "set_temp_file" | "put_temp_file")) {
+        let (n, trace, _res) = fault_free(scn);
+        for k in 0..n {
+            for a in plausible(&trace[k], tier == Tier::Thorough) {
+                no += 1;
+                if !shard.mine(no) {
+                    continue;
+                }
+                let before = rep.violations.len();
+                record(scn, &[(k as u64, a)], &trace, rep);
+                for v in rep.violations.iter_mut().skip(before) {
+                    v.text = format!("[auto_sync(false)] {}", v.text);
+                    if let Some(o) = v.case.as_object_mut() {
+                        o.insert("auto_sync".into(), json!(false));
+                    }
+                }
+                rep.count("auto_sync_off_cases", 1);
+            }
+        }
+    }
+    scn::AUTO_SYNC.with(|a| a.set(true));
     for scn in &scns {
         let (n, trace, _res) = fault_free(scn);
         for k in 0..n {
@@ -317,6 +341,9 @@ pub fn replay(case: &Value, rep: &mut Report) {
         .iter()
         .map(|f| (f[0].as_u64().unwrap(), action_from(&f[1])))
         .collect();
+    let sync = case.get("auto_sync").and_then(|v| v.as_bool()).unwrap_or(true);
+    scn::AUTO_SYNC.with(|a| a.set(sync));
     let (_n, trace, _) = fault_free(&scn);
     record(&scn, &faults, &trace, rep);
+    scn::AUTO_SYNC.with(|a| a.set(true));
 }
